@@ -37,6 +37,21 @@ pub fn opcode_names() -> Vec<String> {
 
 fn run(sh: &mut Shard) {
     let tier = sh.cfg.tier;
+    // a literal evaluated again is pristine, whatever its earlier value went through
+    for prog in crate::slices::literal_pristine_programs() {
+        if !sh.mine() {
+            continue;
+        }
+        sh.begin(&|| printer::program(&prog));
+        sh.count("family:literal-pristine");
+        if let Some(r) = differential(sh, "semantics", &prog, opts()) {
+            if !matches!(r.model.end, End::Unspec(_) | End::Diverge) {
+                sh.nontrivial(&printer::program(&prog));
+            } else {
+                sh.count("literal-pristine-unspecified");
+            }
+        }
+    }
     // size ladders across the operand-width boundaries, with the model as value oracle
     crate::ladders::run_family(sh, "semantics", None, false);
     let names = opcode_names();
